@@ -9,7 +9,7 @@
   front end stops raising for a level without a class, stops de-duplicating / sorting, or takes
   the CPUs for `cpu_affinity([])` from the current mask again.
 -/
-import PsutilModel.Proofs.C18Refine
+import PsutilModel.Proofs.C18Ctx
 import PsutilModel.Model.C18Gen
 namespace Psutil.C18
 open Spec
@@ -413,6 +413,159 @@ theorem C18_pid0_is_the_caller :
     ((step cfg { kWitness with self := 7 } 0 (.nice (some 5))).2.procs 7).map (·.nice) = some 5 := by
   decide
 
+/-! ### the execution context does not matter: entry errno, cached status file
+
+  `stepX` is the call made with a given C `errno` on entry of the native layer and — inside
+  `Process.oneshot()` — a given cached copy of the status file. The driver runs `stepX`. -/
+
+/-- `nice()` returns the kernel's value for EVERY nice value (−1, the error sentinel of
+    getpriority(2), included) and EVERY value of errno on entry -/
+theorem C18_nice_get_exact (c : Cfg) (hg : c.Good) (k : Kernel) (pid : Nat) (st : PState) (hpid : pid ≠ 0)
+    (hst : k.procs pid = some st) (x : Ctx) :
+    stepX c k pid x (.nice none) = (.ok (.int st.nice), k) := by
+  rw [show stepX c k pid x (.nice none) = niceGetX c k pid x.errnoIn from rfl, niceGetX_eq c hg]
+  exact C18_get_nice c k pid st hpid hst
+
+/-- the same for `ionice()` (ioprio_get(2) reports failure by −1 only) -/
+theorem C18_ionice_get_exact (c : Cfg) (hg : c.Good) (k : Kernel) (pid : Nat) (st : PState) (hpid : pid ≠ 0)
+    (hst : k.procs pid = some st) (hcls : st.ioprio / 8192 ≤ 3) (x : Ctx) :
+    stepX c k pid x (.ionice none none) = (.ok (.ionice (st.ioprio / 8192) (st.ioprio % 8192)), k) := by
+  rw [show stepX c k pid x (.ionice none none) = ioniceGetX c k pid x.errnoIn from rfl, ioniceGetX_eq c hg]
+  exact C18_get_ionice c hg k pid st hpid hst hcls
+
+/-- the same for `cpu_affinity()` (sched_getaffinity(2): success is the return value 0) -/
+theorem C18_affinity_get_exact (c : Cfg) (hg : c.Good) (k : Kernel) (pid : Nat) (st : PState) (hpid : pid ≠ 0)
+    (hst : k.procs pid = some st) (hwf : WF k st) (x : Ctx) :
+    stepX c k pid x (.cpuAffinity none) = (.ok (.cpus st.affinity), k) := by
+  have h := C18_get_affinity c hg k pid st hpid hst hwf
+  simp only [step, cpuAffinity] at h
+  simp only [stepX, cpuAffinityX, cextAffinityGetE_eq c hg]
+  exact h
+
+/-- every call gives the same answer and the same kernel in every context; for the set form of
+    `cpu_affinity` this is claimed here only when the status file is read at call time and the
+    EINVAL fall-through is absent (the code as it is) — see `C18_invalid_cpus_repaired` and
+    `C18_oneshot_stale_status_counterexample` for the rest -/
+theorem C18_context_irrelevant (c : Cfg) (hg : c.Good) (k : Kernel) (pid : Nat) (x : Ctx) (req : Req)
+    (h : ∀ cpus, req = .cpuAffinity (some cpus) → x.statusMask = none ∧ c.einvalValueError = false) :
+    stepX c k pid x req = step c k pid req := by
+  cases req with
+  | nice v =>
+    cases v with
+    | none => exact niceGetX_eq c hg k pid _
+    | some v => rfl
+  | ionice cls v =>
+    cases cls with
+    | none =>
+      cases v with
+      | none => exact ioniceGetX_eq c hg k pid _
+      | some v => simp only [stepX, step, ioniceGetX_eq c hg]
+    | some cls => rfl
+  | cpuAffinity cpus =>
+    cases cpus with
+    | none => simp only [stepX, cpuAffinityX, step, cpuAffinity, cextAffinityGetE_eq c hg]
+    | some l =>
+      obtain ⟨h1, h2⟩ := h l rfl
+      simp only [stepX, cpuAffinityX, step, cpuAffinity, h1, h2, getEligibleCpusX, cpuAffinitySetWith_plain]
+  | rlimit res l => rfl
+
+/-- the seeded change C18-1 as a configuration: `errno = 0` dropped, test `priority == -1 && errno != 0` -/
+def cfgNoClear : Cfg := { cfg with prioGet := ⟨false, .sentinelAndErrno⟩ }
+
+/-- why errno must be cleared: nice −1 read with a stale errno (ENOENT) raises -/
+theorem C18_stale_errno_counterexample :
+    (stepX cfgNoClear { kWitness with procs := fun q => if q = 7 then some { stWitness with nice := -1 } else none }
+      7 ⟨2, none⟩ (.nice none)).1 = .exc (.osRaw 2) ∧
+    (stepX { cfg with prioGet := ⟨false, .errnoOnly⟩ } kWitness 7 ⟨2, none⟩ (.nice none)).1 = .exc (.osRaw 2) ∧
+    (stepX { cfg with prioGet := ⟨true, .sentinelOnly⟩ }
+      { kWitness with procs := fun q => if q = 7 then some { stWitness with nice := -1 } else none }
+      7 ⟨0, none⟩ (.nice none)).1 = .exc (.osRaw 0) := by
+  decide
+
+/-- the statement about only-unusable CPU lists at full strength, in every context -/
+def C18_invalid_cpus_FullX (c : Cfg) : Prop :=
+  ∀ (k : Kernel) (pid : Nat) (st : PState) (cpus : List Int) (x : Ctx), pid ≠ 0 → k.procs pid = some st →
+    WF k st → OnlyUnusableCpus k st cpus → stepX c k pid x (.cpuAffinity (some cpus)) = (.exc .valueError, k)
+
+/-- with `fixes/C18-ineligible-valueerror.diff` (fact `affinityEinvalRaisesValueError`) the full
+    statement holds, for every cached status file -/
+theorem C18_invalid_cpus_repaired (c : Cfg) (hrep : c.einvalValueError = true) : C18_invalid_cpus_FullX c := by
+  intro k pid st cpus x hpid hst hwf h
+  have hemp : cpus.isEmpty = false := by
+    cases cpus with
+    | nil => exact absurd rfl h.1
+    | cons _ _ => rfl
+  have hel : ∃ el, getEligibleCpusX k pid x.statusMask = some el := by
+    cases x.statusMask with
+    | none =>
+      simp only [getEligibleCpusX, getEligibleCpus, hst]
+      split <;> exact ⟨_, rfl⟩
+    | some m => exact ⟨_, rfl⟩
+  obtain ⟨el, hel⟩ := hel
+  simp only [stepX, cpuAffinityX, hemp, Bool.false_eq_true, if_false, hrep, hel]
+  exact cpuAffinitySetWith_refused el k pid _ (native_refuses_onlyUnusable c k pid st cpus hpid hst hwf.ncpu h)
+
+def cfgUnrepaired : Cfg := { cfg with einvalValueError := false }
+def cfgRepaired : Cfg := { cfg with einvalValueError := true }
+
+/-- without the repair the full statement is false (finding `C18-ineligible-oserror`) -/
+theorem C18_invalid_cpus_counterexampleX : ¬ C18_invalid_cpus_FullX cfgUnrepaired := by
+  intro h
+  have := h kWitness 7 stWitness [2] ⟨0, none⟩ (by decide) rfl wf_witness ⟨by decide, by decide⟩
+  have h2 : (stepX cfgUnrepaired kWitness 7 ⟨0, none⟩ (.cpuAffinity (some [2]))).1 = .exc (.osError .EINVAL) := by
+    decide
+  rw [this] at h2
+  cases h2
+
+/-- a process confined to CPUs 0-1 of four, currently on both -/
+def kBoth : Kernel :=
+  { kWitness with procs := fun q => if q = 7 then some { stWitness with affinity := [0, 1] } else none }
+
+/-- without the repair `oneshot()` changes the answer: the mask is `0-1` now (the diagnosis would
+    say ValueError), but a status file cached while the mask was `0` makes the same call raise
+    OSError(EINVAL); with the repair both give ValueError -/
+theorem C18_oneshot_stale_status_counterexample :
+    (stepX cfgUnrepaired kBoth 7 ⟨0, none⟩ (.cpuAffinity (some [2]))).1 = .exc .valueError ∧
+    (stepX cfgUnrepaired kBoth 7 ⟨0, some [0]⟩ (.cpuAffinity (some [2]))).1 = .exc (.osError .EINVAL) ∧
+    (stepX cfgRepaired kBoth 7 ⟨0, some [0]⟩ (.cpuAffinity (some [2]))).1 = .exc .valueError := by
+  decide
+
+/-! ### rlimit: RLIM_INFINITY, soft > hard, resource out of range -/
+
+/-- Python int ↔ `rlim_t`: −1 is RLIM_INFINITY (2^64−1) in both directions, and the conversion
+    round-trips on every 64-bit value -/
+theorem C18_rlim_conversion :
+    toU64 (-1) = 18446744073709551615 ∧ ofU64 18446744073709551615 = -1 ∧
+    (∀ n : Nat, n < 18446744073709551616 → toU64 (ofU64 n) = n) ∧
+    (∀ v : Int, fitsCLong v = true → ofU64 (toU64 v) = v) := by
+  refine ⟨by decide, by decide, fun n hn => ?_, fun v hv => ?_⟩
+  · unfold toU64 ofU64; split <;> split <;> omega
+  · simp only [fitsCLong, decide_eq_true_eq] at hv
+    unfold toU64 ofU64; split <;> split <;> omega
+
+/-- soft > hard (as unsigned 64-bit values, so `(-1, 5)` too): the kernel's EINVAL reaches the
+    caller as ValueError and nothing changes -/
+theorem C18_rlimit_soft_gt_hard (c : Cfg) (hg : c.Good) (k : Kernel) (pid : Nat) (st : PState) (res : Nat)
+    (s h : Int) (hpid : pid ≠ 0) (hst : k.procs pid = some st) (hres : res < 16)
+    (hs : fitsCLong s = true) (hh : fitsCLong h = true) (hgt : toU64 s > toU64 h) :
+    step c k pid (.rlimit res (some [s, h])) = (.exc .valueError, k) := by
+  have hfit : fitsCInt (res : Int) = true := by simp [fitsCInt]; omega
+  have hr : ¬ ((res : Int) < 0 ∨ (res : Int) ≥ 16) := by omega
+  simp [step, rlimitL, hpid, hg.pair, pyPrlimitSet, resourceCheck, hfit, hr, hs, hh, sysPrlimitSet,
+    resolve_pid k hpid, hst, hgt, wrapExc]
+
+/-- a resource number outside 0..15: ValueError for the get and the set form, nothing changes -/
+theorem C18_rlimit_bad_resource (c : Cfg) (k : Kernel) (pid : Nat) (res : Int) (l : Option (List Int))
+    (hpid : pid ≠ 0) (hfit : fitsCInt res = true) (hres : res < 0 ∨ res ≥ 16) :
+    step c k pid (.rlimit res l) = (.exc .valueError, k) := by
+  cases l with
+  | none => simp [step, rlimitL, hpid, pyPrlimitGet, resourceCheck, hfit, hres, wrapExc]
+  | some l =>
+    simp only [step, rlimitL, hpid, false_and, if_false]
+    split
+    · rfl
+    · simp [pyPrlimitSet, resourceCheck, hfit, hres, wrapExc]
+
 /-! ### the hypotheses are satisfiable -/
 
 example : WF kWitness stWitness ∧ kWitness.procs 7 = some stWitness ∧ (7 : Nat) ≠ 0 :=
@@ -425,5 +578,8 @@ example : OnlyUnusableCpus kWitness stWitness [2, 9, -1] := ⟨by decide, by dec
 example : ¬ InFindingRegion kWitness stWitness (.cpuAffinity (some [9])) := by
   rintro ⟨_, h, _⟩; have := h 9 (by simp); simp [kWitness] at this
 example : InFindingRegion kWitness stWitness (.cpuAffinity (some [2])) := ⟨by decide, by decide, by decide⟩
+example : cfgRepaired.einvalValueError = true := rfl
+example : fitsCLong (-1) = true ∧ fitsCLong 5 = true ∧ toU64 (-1) > toU64 5 := by decide
+example : fitsCInt 16 = true ∧ ((16 : Int) < 0 ∨ (16 : Int) ≥ 16) := by decide
 
 end Psutil.C18
